@@ -1,7 +1,7 @@
 (* C02 — embed: result = calling outer, which forwards *args/**kwargs to inner. *)
 From Sigtools.Model Require Import Base Bind Roles Algebra.
 From Sigtools.Model Require Import Universe.
-From Sigtools.Proofs Require Import SmallModel Basics Deciders SweepDefs SweepDefs2 Bounded2.
+From Sigtools.Proofs Require Import SmallModel Basics Deciders SweepDefs SweepDefs2 Bounded2 MergeNeutral.
 
 (* every result of embed went through the validating constructor *)
 Theorem C02_wf ss uva uvk r : embed ss uva uvk = Ok r -> validate (params r) = true.
@@ -62,3 +62,12 @@ Theorem C02_embed_chain_U2 o i uva uvk :
   end.
 Proof. exact (embed_chain_U2 o i uva uvk). Qed.
 Print Assumptions C02_embed_chain_U2.
+
+(* for ALL valid inner signatures: embedding into a bare star-args / star-kwargs
+   signature returns the inner parameters unchanged *)
+Theorem C02_neutral i nva nvk sr dr :
+  valid_sig (params i) = true -> stars_plain (params i) ->
+  exists r, embed [mkSig [mkParam nva VP None None UEmpty; mkParam nvk VK None None UEmpty]
+                         None UEmpty sr dr; i] true true = Ok r /\ params r = params i.
+Proof. exact (embed_into_bare_stars i nva nvk sr dr). Qed.
+Print Assumptions C02_neutral.
